@@ -1,0 +1,95 @@
+//go:build verif
+// +build verif
+
+package hotrestart
+
+// Verification-only exports (build tag verif): thin wrappers around the
+// unexported frame functions and message constructors of this package.
+// Nothing here changes behaviour; the wrappers do not recover panics and
+// do not validate anything, so what the caller sees is what rpc.go does.
+
+import (
+	"net"
+	"syscall"
+)
+
+// VerifMessage mirrors the unexported message struct.
+type VerifMessage struct {
+	Type uint8
+	Len  uint16
+	Data []byte
+}
+
+// VerifReadMessage calls readMessage on conn.
+func VerifReadMessage(conn *net.UnixConn) (*VerifMessage, error) {
+	m, err := readMessage(conn)
+	if err != nil || m == nil {
+		return nil, err
+	}
+	return &VerifMessage{Type: uint8(m.Type), Len: m.Len, Data: m.Data}, nil
+}
+
+// VerifSendMessage calls sendMessage on conn with a message built verbatim
+// from m (Len is NOT recomputed from Data).
+func VerifSendMessage(conn *net.UnixConn, m *VerifMessage) error {
+	return sendMessage(conn, &message{Type: messageType(m.Type), Len: m.Len, Data: m.Data})
+}
+
+// VerifNewRawMessage calls newMessage(typ, nil-or-value).
+func VerifNewRawMessage(typ uint8, v interface{}) (*VerifMessage, error) {
+	m, err := newMessage(messageType(typ), v)
+	if err != nil {
+		return nil, err
+	}
+	return &VerifMessage{Type: uint8(m.Type), Len: m.Len, Data: m.Data}, nil
+}
+
+// VerifMessageNames lists the messages the package defines, in type order.
+func VerifMessageNames() []string {
+	return []string{
+		"shutdownAdminReq", "shutdownAdminReply",
+		"shutdownLocalConfReq", "shutdownLocalConfReply",
+		"drainListenersReq", "drainListenersReply",
+		"terminateReq", "terminateReply",
+		"unknownReply",
+	}
+}
+
+// VerifNewMessage builds one of the package's messages with its own constructor.
+func VerifNewMessage(name string) *VerifMessage {
+	var m *message
+	switch name {
+	case "shutdownAdminReq":
+		m = newShutdownParentAdminRequest()
+	case "shutdownAdminReply":
+		m = newShutdownParentAdminResponse()
+	case "shutdownLocalConfReq":
+		m = newShutdownParentLocalConfRequest()
+	case "shutdownLocalConfReply":
+		m = newShutdownParentLocalConfResponse()
+	case "drainListenersReq":
+		m = newDrainParentListenersRequest()
+	case "drainListenersReply":
+		m = newDrainParentListenersResponse()
+	case "terminateReq":
+		m = newTerminateParentRequest()
+	case "terminateReply":
+		m = newTerminateParentResponse()
+	case "unknownReply":
+		m = newUnknownResponse()
+	default:
+		return nil
+	}
+	return &VerifMessage{Type: uint8(m.Type), Len: m.Len, Data: m.Data}
+}
+
+// VerifSocketName is the control socket name of instance id.
+func VerifSocketName(id int) string { return genDomainSocketName(id) }
+
+// VerifSetKill replaces the function the terminate step uses to signal the
+// process (the package's own tests do the same) and returns a restore func.
+func VerifSetKill(f func(pid int, sig syscall.Signal) error) (restore func()) {
+	old := kill
+	kill = f
+	return func() { kill = old }
+}
